@@ -99,6 +99,29 @@ class Facts:
             raise AnalysisBroken('anchor function has no body in the parsed program: ' + qname)
         return [self.ast(u) for u in us]
 
+    def asts_t(self, qname, must=True):
+        """like asts(), but matches the qualified name with template arguments stripped (members of class templates)"""
+        if getattr(self, '_tidx', None) is None:
+            idx = collections.defaultdict(list)
+            for n, us in self.astbyname.items():
+                if '<' in n:
+                    out = ''; d = 0
+                    for ch in n:
+                        if ch == '<':
+                            d += 1
+                        elif ch == '>':
+                            d -= 1
+                        elif d == 0:
+                            out += ch
+                    idx[out].extend(us)
+                else:
+                    idx[n].extend(us)
+            self._tidx = idx
+        us = self._tidx.get(qname) or self._tidx.get(NS + qname) or []
+        if must and not us:
+            raise AnalysisBroken('anchor function has no body in the parsed program: ' + qname)
+        return [self.ast(u) for u in us]
+
     def all_asts(self, file_re=None):
         r = re.compile(file_re) if file_re else None
         for usr in self.astidx:
